@@ -460,7 +460,9 @@ where
                         if let Some(date) = captures.get(1) {
                             let nt = asc_parse_date(date.as_str());
                             if let Ok(nt) = nt {
-                                let nt_us = nt.and_utc().timestamp_micros() as u64;
+                                // a date before 1970 is used as 1.1.1970 (the negative time casted to u64 is a huge
+                                // reception time that overflows the time arithmetic of the lifecycle detection)
+                                let nt_us = nt.and_utc().timestamp_micros().max(0) as u64;
                                 self.date_us = nt_us;
                                 self.first_neg_timestamp_us = 0; // reset here if mult. files get concatenated
                                 if let Some(timestamp_reference_time_us) =
